@@ -281,7 +281,7 @@ Qed.
 Definition min_ok (p : prim) (vals : list value) (o : option bytes) : bool :=
   match o with
   | Some mn =>
-      negb (Nat.eqb (length vals) 0) &&
+      negb (Nat.eqb (length vals) 0) && bound_wf p mn &&
       forallb (fun v => prim_le_bytes p mn (value_bytes_of p v))
               (filter (fun v => negb (prim_is_nan p (num_of v))) vals)
   | None => true
@@ -290,7 +290,7 @@ Definition min_ok (p : prim) (vals : list value) (o : option bytes) : bool :=
 Definition max_ok (p : prim) (vals : list value) (o : option bytes) : bool :=
   match o with
   | Some mx =>
-      negb (Nat.eqb (length vals) 0) &&
+      negb (Nat.eqb (length vals) 0) && bound_wf p mx &&
       forallb (fun v => prim_le_bytes p (value_bytes_of p v) mx)
               (filter (fun v => negb (prim_is_nan p (num_of v))) vals)
   | None => true
@@ -434,6 +434,34 @@ Lemma value_bytes_of_numeric p v :
   numeric p -> value_bytes_of p v = le_enc (prim_size p) (num_of v).
 Proof. intros Hp. destruct p; try contradiction; reflexivity. Qed.
 
+(** the encoding of a non-NaN pattern of the type's width is a well-formed bound *)
+Lemma bound_wf_enc p n :
+  numeric p -> n < 2 ^ prim_bits p -> prim_is_nan p n = false ->
+  bound_wf p (le_enc (prim_size p) n) = true.
+Proof.
+  intros Hp Hn Hnan.
+  assert (Hwf : bound_wf p (le_enc (prim_size p) n) =
+                Nat.eqb (length (le_enc (prim_size p) n)) (prim_size p)
+                && negb (prim_is_nan p (le_dec (le_enc (prim_size p) n))))
+    by (destruct p; try contradiction; reflexivity).
+  rewrite Hwf, le_enc_length, Nat.eqb_refl.
+  rewrite le_dec_enc by (rewrite <- (pow_bits_size p Hp); exact Hn).
+  rewrite Hnan. reflexivity.
+Qed.
+
+(** a bound that decodes to a NaN, or is of the wrong width, is refused *)
+Lemma bound_wf_sound p b :
+  numeric p -> bound_wf p b = true ->
+  length b = prim_size p /\ prim_is_nan p (le_dec b) = false.
+Proof.
+  intros Hp H.
+  assert (Hwf : bound_wf p b =
+                Nat.eqb (length b) (prim_size p) && negb (prim_is_nan p (le_dec b)))
+    by (destruct p; try contradiction; reflexivity).
+  rewrite Hwf in H. apply andb_prop in H. destruct H as [H1 H2].
+  split; [apply Nat.eqb_eq; exact H1 | apply negb_true_iff; exact H2].
+Qed.
+
 Lemma length_nonzero {A} (l : list A) : l <> [] -> negb (Nat.eqb (length l) 0) = true.
 Proof. destruct l as [|x l]; [congruence | reflexivity]. Qed.
 
@@ -457,7 +485,10 @@ Proof.
       rewrite map_length in Hcnt. destruct vals as [|v vals]; [|reflexivity].
       cbn [length] in Hcnt. lia. }
   assert (Hsz : 2 ^ prim_bits p = 256 ^ N.of_nat (prim_size p)) by (apply pow_bits_size; exact Hp).
-  unfold min_ok, max_ok. rewrite Hne. cbn [andb].
+  unfold min_ok, max_ok. rewrite Hne.
+  rewrite (bound_wf_enc p (ns_min (num_fold p vals)) Hp G3 G1).
+  rewrite (bound_wf_enc p (ns_max (num_fold p vals)) Hp G4 G2).
+  cbn [andb].
   split; apply forallb_forall; intros v Hv; apply filter_In in Hv; destruct Hv as [Hin Hnan];
     rewrite prim_le_bytes_numeric, value_bytes_of_numeric by exact Hp;
     (assert (Hvb : num_of v < 2 ^ prim_bits p)
@@ -538,7 +569,7 @@ Proof.
   fold (str_fold vals) in Hseen, Hbnd.
   destruct (ss_seen (str_fold vals)) eqn:Hs; [|split; reflexivity].
   rewrite map_length in Hseen. cbn [str_stats_new ss_seen orb] in Hseen.
-  unfold min_ok, max_ok. rewrite <- Hseen. cbn [andb].
+  unfold min_ok, max_ok. rewrite <- Hseen. cbn [andb bound_wf].
   split; apply forallb_forall; intros v Hv; apply filter_In in Hv; destruct Hv as [Hin _];
     destruct (Hbnd (str_of v) (in_map str_of vals v Hin)) as [Hmin Hmax];
     unfold bytes_le in Hmin, Hmax;
@@ -671,6 +702,27 @@ Example ex_flt_stats :
   = (Some 1%Z, Some [0; 0; 0; 192], Some [0; 0; 128; 127]).
 Proof. vm_compute. reflexivity. Qed.
 Example ex_flt_sound : stats_sound PFloat32 1 ex_flt (page_stats PFloat32 false 1 ex_flt) = true.
+Proof. vm_compute. reflexivity. Qed.
+
+(** The strengthened checker at work.  float32 page NaN, 1.5, -2.5: statistics
+    min = max = NaN (0x7FC00000, little endian) bound nothing - every comparison
+    against them is false - and are judged unsound; the statistics the templates
+    write for the same page (the accumulator never takes a NaN) are sound. *)
+Definition ex_nan : list entry :=
+  [ev 0 (VNum 2143289344); ev 0 (VNum 1069547520); ev 0 (VNum 3223322624)].
+Definition ex_nan_stats_bad : statistics :=
+  {| st_max := None; st_min := None; st_null_count := None; st_distinct_count := None;
+     st_max_value := Some [0; 0; 192; 127]; st_min_value := Some [0; 0; 192; 127] |}.
+Example ex_nan_ok : entries_okb PFloat32 true 0 ex_nan = true.
+Proof. vm_compute. reflexivity. Qed.
+Example ex_nan_bounds_unsound : stats_sound PFloat32 0 ex_nan ex_nan_stats_bad = false.
+Proof. vm_compute. reflexivity. Qed.
+Example ex_nan_page_stats :
+  (st_min_value (page_stats PFloat32 true 0 ex_nan), st_max_value (page_stats PFloat32 true 0 ex_nan))
+  = (Some [0; 0; 32; 192], Some [0; 0; 192; 63]).
+Proof. vm_compute. reflexivity. Qed.
+Example ex_nan_page_stats_sound :
+  stats_sound PFloat32 0 ex_nan (page_stats PFloat32 true 0 ex_nan) = true.
 Proof. vm_compute. reflexivity. Qed.
 
 (** string page: "\xc8\x01", "", "\x80", "ab" *)
